@@ -194,8 +194,16 @@ def edge_deviations(g: Graph) -> Iterator[Graph]:
             yield c
 
 
+def _dev_chunk(graphs):
+    out = set()
+    for g in graphs:
+        out.update(edge_deviations(g))
+    return out
+
+
 def deviation_closure(bases: Sequence[Graph], k: int) -> List[Graph]:
-    """All closed CFGs within <= k edge deviations of some base graph (deduplicated)."""
+    """All closed CFGs within <= k edge deviations of some base graph (deduplicated, deterministic order)."""
+    from .kernel import shard_map
     seen = {}
     frontier = []
     for b in bases:
@@ -205,8 +213,10 @@ def deviation_closure(bases: Sequence[Graph], k: int) -> List[Graph]:
             frontier.append(c)
     for d in range(1, k + 1):
         nxt = []
-        for g in frontier:
-            for h in edge_deviations(g):
+        chunks = [frontier[i:i + 25] for i in range(0, len(frontier), 25)]
+        results = shard_map(_dev_chunk, chunks) if len(frontier) > 50 else [_dev_chunk(c) for c in chunks]
+        for r in results:
+            for h in sorted(r):
                 if h not in seen:
                     seen[h] = d
                     nxt.append(h)
